@@ -1,6 +1,8 @@
 import PPLV.Checked.Spec
 import PPLV.Checked.Bounded
 import PPLV.Checked.ModelAsWritten
+import PPLV.Checked.FloatJudge
+import PPLV.Checked.FloatModel
 /-!
 `pplv_c11`: reads the journal of `harness/c11_checked.cc` on stdin (grammar there) and, for every
 executed case, (1) runs the code-shaped model `IntOp.run`, (2) evaluates — independently of the
@@ -20,6 +22,8 @@ structure Cfg where
   types : List (String × IntTy) := []
   pols : List (String × Policy) := []
   fixes : Fixes := {}
+  fmts : List (String × FloatFmt) := []
+  fpols : List (String × FPolicy) := []
 
 def Cfg.ty (c : Cfg) (n : String) : Option IntTy := (c.types.find? (·.1 == n)).map (·.2)
 def Cfg.pol (c : Cfg) (n : String) : Option Policy := (c.pols.find? (·.1 == n)).map (·.2)
@@ -46,7 +50,7 @@ def parseOp (c : Cfg) (s : String) : Option IntOp :=
 def showExact : Exact → String
   | .nan => "nan" | .minf => "-inf" | .pinf => "+inf"
   | .frac n d => if d == 1 then toString n else s!"{n}/{d}"
-  | .sqrt n => s!"sqrt({n})"
+  | .sqrt n d => if d == 1 then s!"sqrt({n})" else s!"sqrt({n}/{d})"
 
 structure Stat where
   n : Nat := 0
@@ -196,6 +200,11 @@ def addSample (key : String) (line : String) : M Unit := do
       | (k, v) :: rest => if k == key then (k, v + 1) :: rest else (k, v) :: go rest
     set { s with samples := line :: s.samples, nSamplesFor := go s.nSamplesFor }
 
+def addSampleLazy (key : String) (line : Unit → String) : M Unit := do
+  let s ← get
+  let cnt := ((s.nSamplesFor.find? (·.1 == key)).map (·.2)).getD 0
+  if cnt < 2 then addSample key (line ())
+
 def record (key : String) (id : String) (o : CaseOut) (perCase : Bool) : M Unit := do
   if o.skipped then
     bump key fun s => { s with skipped := s.skipped + 1 }
@@ -344,6 +353,116 @@ def handleProg (id tn : String) (rest : List String) : M Unit := do
       IO.println s!"MISMATCH {id} {o} T={tn} P=BIC op=prog dir=6 to0=0 x=0 y=0 e=0 real={outcome} model={mexc} exact=- prog={ins} init={init.toList} B={bregs.toList} U={uregs.toList} M={mregs.toList} tags="
   | _ => IO.println s!"MISMATCH {id} parse prog"
 
+/-! ### floating point: judged on the real output only (`FloatJudge.lean`) -/
+
+def parseQV (s : String) : QV :=
+  if s == "nan" then .nan else if s == "+inf" then .pinf else if s == "-inf" then .minf
+  else match s.splitOn "/" with
+    | [n, d] => .fin (tokInt n) (tokInt d)
+    | _ => match s.splitOn ":" with
+      | [m, k] =>
+        let mi := tokInt m
+        let ki := tokInt k
+        if ki ≥ 0 then .fin mi (pow2big ki.toNat) else .fin (mi * pow2big (-ki).toNat) 1
+      | _ => .nan
+
+def parseFloatOp (s : String) : Option FloatOp :=
+  match s with
+  | "neg" => some .neg | "abs" => some .abs | "sqrt" => some .sqrt | "floor" => some .floor | "ceil" => some .ceil
+  | "trunc" => some .trunc | "add" => some .add | "sub" => some .sub | "mul" => some .mul | "div" => some .div
+  | "rem" => some .rem | "addMul" => some .addMul | "subMul" => some .subMul | "add2exp" => some .add2exp
+  | "sub2exp" => some .sub2exp | "mul2exp" => some .mul2exp | "div2exp" => some .div2exp
+  | "smod2exp" => some .smod2exp | "umod2exp" => some .umod2exp
+  | "assignI" | "assignZ" | "assignQ" | "assignF" | "toZ" | "toQ" => some .assign
+  | _ => none
+
+def showQX : QX → String
+  | .val .nan => "nan" | .val .minf => "-inf" | .val .pinf => "+inf"
+  | .val (.fin n d) => if d == 1 then toString n else s!"{n}/{d}"
+  | .sqrt n d => s!"sqrt({n}/{d})"
+
+/-- structural classes of float inputs (for known-finding predicates) -/
+def floatTags (fmt : FloatFmt) (opn : String) (to0 x y : QV) : List String :=
+  let isFinite (v : QV) : Bool := match v with | .fin _ _ => true | _ => false
+  let t1 := if opn == "sqrt" && (x.sgn < 0) then ["negative_operand_nan_unclassified"] else []
+  let t2 := if (opn == "smod2exp" || opn == "umod2exp") && x.isInf then ["infinite_operand_nan_unclassified"] else []
+  let t3 := if (opn == "addMul" || opn == "subMul") && to0.isInf && isFinite x && isFinite y
+            then ["infinite_accumulator_finite_product"] else []
+  let t4 := match opn, x with
+    | "assignQ", .fin n d =>
+      if n == 0 then [] else
+      let a := n.natAbs
+      let e0 : Int := (a.log2 : Int) - (d.natAbs.log2 : Int)       -- bits(n) - bits(d)
+      -- floor(log2 |n/d|) is e0 or e0 - 1
+      let ge : Bool := if e0 ≥ 0 then decide ((a : Int) ≥ d * pow2big e0.toNat) else decide ((a : Int) * pow2big (-e0).toNat ≥ d)
+      let ee := if ge then e0 else e0 - 1
+      if !ge && ee < fmt.emin then ["denormal_result_quotient_mantissa_below_one"] else []
+    | _, _ => []
+  t1 ++ t2 ++ t3 ++ t4
+
+partial def trailingZeros (a : Nat) (acc : Nat := 0) : Nat :=
+  if a == 0 then acc else if a % 2 == 1 then acc else trailingZeros (a / 2) (acc + 1)
+
+/-- the code-shaped model of `assign_float_mpz` against the library (obligation `model`) -/
+def assignZModelBad (fmt : FloatFmt) (dirN : Nat) (x stored : QV) (code : Nat) : Bool :=
+  match x, Dir.ofCode dirN with
+  | .fin v 1, some dir =>
+    if dir == .notNeeded then false else
+    let f : FloatFormat := { mbits := fmt.p - 1, emax := fmt.emax }
+    let a := v.natAbs
+    let (ms, mr) := f.assignMpz v a.log2 (trailingZeros a) dir
+    let same := match ms, stored with
+      | .nan, .nan => true | .minf, .minf => true | .pinf, .pinf => true
+      | .fin m, .fin n d => m * d == n
+      | _, _ => false
+    !(same && mr.toNat == code)
+  | _, _ => false
+
+def handleFloat (id fn pn opn d to0 x y e st code : String) : M Unit := do
+  let s ← get
+  let key := s!"{fn} {pn} {opn}"
+  match (s.cfg.fmts.find? (·.1 == fn)).map (·.2), (s.cfg.fpols.find? (·.1 == pn)).map (·.2), parseFloatOp opn with
+  | some fmt, some π, some op =>
+    let (vt, vx, vy) := (parseQV to0, parseQV x, parseQV y)
+    let v0 := judgeFloat fmt π op (tokNat d) vt vx vy (tokNat e) (parseQV st) (tokNat code)
+    let v : FloatVerdict :=
+      if opn == "assignZ" && !v0.skipped && assignZModelBad fmt (tokNat d) vx (parseQV st) (tokNat code)
+      then { v0 with obligations := v0.obligations ++ ["model"] } else v0
+    if v.skipped then
+      bump key fun c => { c with skipped := c.skipped + 1 }
+      IO.println s!"skip {id}"
+    else
+      let bad := !v.obligations.isEmpty
+      let nt := tokNat code != 1
+      bump key fun c => { c with n := c.n + 1, nontrivial := c.nontrivial + (if nt then 1 else 0), bad := c.bad + (if bad then 1 else 0) }
+      let desc := fun (_ : Unit) =>
+        let ex := showQX (op.exact vt vx vy (tokNat e))
+        let exs := if ex.length > 160 then (ex.take 160).toString ++ "…" else ex
+        s!"T={fn} P={pn} op={opn} dir={d} to0={to0} x={x} y={y} e={e} real={st},{code} model=- exact={exs}"
+      if bad then
+        let obs := "+".intercalate v.obligations
+        let tags := ",".intercalate ("float" :: floatTags fmt opn vt vx vy)
+        IO.println s!"MISMATCH {id} {obs} {desc ()} tags={tags}"
+      else
+        IO.println s!"ok {id}"
+        if nt then addSampleLazy key desc
+  | _, _, _ => IO.println s!"MISMATCH {id} parse float line"
+
+def handleFloatQuery (id fn pn what x y aux ans : String) : M Unit := do
+  let key := s!"{fn} {pn} {what}"
+  let vx := parseQV x
+  let expected : Nat :=
+    if what == "cmp" then cmpSpec vx (parseQV y)
+    else if what == "sgn" then sgnSpec vx
+    else if what == "isint" then (if isIntSpec vx then 1 else 0)
+    else let k := tokNat aux; classifySpec vx (k / 4 % 2 == 1) (k / 2 % 2 == 1) (k % 2 == 1)
+  bump key fun c => { c with n := c.n + 1 }
+  if expected == tokNat ans then IO.println s!"ok {id}"
+  else
+    bump key fun c => { c with bad := c.bad + 1 }
+    -- a wrong answer of a query IS the property clause ("comparison … reports true relations")
+    IO.println s!"MISMATCH {id} holds T={fn} P={pn} op={what} dir={aux} to0=0 x={x} y={y} e=0 real=0,{ans} model=0,{expected} exact=- tags=float"
+
 partial def loop (h : IO.FS.Stream) : M Unit := do
   let line ← h.getLine
   if line.isEmpty then return
@@ -355,6 +474,15 @@ partial def loop (h : IO.FS.Stream) : M Unit := do
   | ["cfg", "policy", n, a, b, c, d, e, f, g, h', i, j] =>
     let po : Policy := Policy.mk (tokB a) (tokB b) (tokB c) (tokB d) (tokB e) (tokB f) (tokB g) (tokB h') (tokB i) (tokB j)
     modify fun s => { s with cfg := { s.cfg with pols := (n, po) :: s.cfg.pols } }
+  | ["cfg", "float", fn, p, emax, emin, _mb] =>
+    let fmt : FloatFmt := { p := tokNat p, emax := tokNat emax, emin := tokInt emin }
+    modify fun s => { s with cfg := { s.cfg with fmts := (fn, fmt) :: s.cfg.fmts } }
+  | ["cfg", "fpolicy", n, a, b, c, d, e, f, g, h', i, j, k, l] =>
+    let po : Policy := Policy.mk (tokB a) (tokB b) (tokB c) (tokB d) (tokB e) (tokB f) (tokB g) (tokB h') (tokB i) (tokB j)
+    let fp : FPolicy := { base := po, checkFpuInexact := tokB k, checkFpuNanResult := tokB l }
+    modify fun s => { s with cfg := { s.cfg with fpols := (n, fp) :: s.cfg.fpols } }
+  | ["f", id, fn, pn, opn, d, to0, x, y, e, st, code] => handleFloat id fn pn opn d to0 x y e st code
+  | ["fq", id, fn, pn, what, x, y, aux, ans] => handleFloatQuery id fn pn what x y aux ans
   | ["cfg", "fix", name, v] =>
     modify fun s =>
       let f := s.cfg.fixes
